@@ -584,7 +584,9 @@ func (c *Client) send(dest *net.UDPAddr, msg *dhcpv4.DHCPv4) (resp <-chan *dhcpv
 		close(done)
 
 		c.pendingMu.Lock()
-		if p, ok := c.pending[msg.TransactionID]; ok {
+		// Only remove our own entry: receiveLoop may already have retired
+		// it, and another call may have registered the same XID since.
+		if p, ok := c.pending[msg.TransactionID]; ok && p.done == done {
 			close(p.ch)
 			delete(c.pending, msg.TransactionID)
 		}
